@@ -17,6 +17,7 @@ import (
 const (
 	KiB = 1024
 	MiB = 1024 * 1024
+	GiB = 1024 * MiB
 	// EmptySha256 is the digest of the empty blob.
 	EmptySha256 = "e3b0c44298fc1c149afbf4c8996fb92427ae41e4649b934ca495991b7852b855"
 	Block       = 4096
